@@ -5,7 +5,7 @@ def _extra(lines, verdicts):
     lwt = 0; tok = 0; fo = 0; ta = 0; unknown_ks = 0; down = 0
     rings = set()
     for ln in lines:
-        f = ln.split(" ")
+        f = _norm(ln)
         if len(f) < 7:
             continue
         rings.add((f[1], f[2], f[3]))
@@ -15,14 +15,53 @@ def _extra(lines, verdicts):
         tok += r[0] != "_"; unknown_ks += r[1] in ("u", "_"); lwt += r[2] != "0"
         down += ("e" in f[4]) or ("d" in f[4])
     dd = [_down_dc(ln) for ln in lines]
-    return {"preferred_dc_all_down_with_failover": dd.count(True), "preferred_dc_all_down_without_failover": dd.count(False),
+    nl, dup = _two_reads(lines)
+    return {"two_read_cases": nl, "two_read_plans_naming_a_node_twice": dup,
+            "latency_awareness_census": _census() or "off: builder default None, DefaultPolicy::default None, runner never sets it",
+            "preferred_dc_all_down_with_failover": dd.count(True), "preferred_dc_all_down_without_failover": dd.count(False),
             "policy_preference_kinds": pol, "token_aware_policies": ta, "failover_permitted": fo,
             "requests_with_token": tok, "requests_without_known_keyspace": unknown_ks, "lwt_requests": lwt,
             "cases_with_down_or_disabled_nodes": down, "distinct_clusters": len(rings)}
 
+def _norm(ln):
+    """fields of a P line; an L line (two liveness reads) with its second flag field removed"""
+    f = ln.split("|")[0].split()
+    if f and f[0] == "L":
+        f = f[:5] + f[6:]
+    return f
+
+def _two_reads(lines):
+    n = dup = changed_head = 0
+    for ln in lines:
+        if not ln.startswith("L "):
+            continue
+        n += 1
+        ids = [t.split(":")[0] for t in ln.split("|")[1].split()[0].split(",")] if "|" in ln and ln.split("|")[1].strip() not in ("-", "") else []
+        dup += len(ids) != len(set(ids))
+    return n, dup
+
+def _census():
+    """latency awareness is outside the model: the tie must never enable it and the builder must default to off"""
+    import re
+    bad = []
+    try:
+        src = open("/repo/scylla/src/policies/load_balancing/default.rs").read()
+        m = re.search(r"impl DefaultPolicyBuilder \{.*?pub fn new\(\) -> Self \{(.*?)\n    \}", src, re.S)
+        if not m or not re.search(r"latency_awareness:\s*None", m.group(1)):
+            bad.append("DefaultPolicyBuilder::new() no longer sets latency_awareness: None")
+        d = re.search(r"impl Default for DefaultPolicy \{.*?fn default\(\) -> Self \{(.*?)\n    \}", src, re.S)
+        if not d or not re.search(r"latency_awareness:\s*None", d.group(1)):
+            bad.append("DefaultPolicy::default() no longer sets latency_awareness: None")
+        for fn in ("/verif/harness/src/bin/c05.rs", "/verif/harness/src/ring_util.rs"):
+            if re.search(r"latency_awareness|LatencyAwareness", open(fn).read()):
+                bad.append(f"{fn} mentions latency awareness")
+    except OSError as e:
+        bad.append(f"census could not read sources: {e}")
+    return bad
+
 def _down_dc(ln):
     """preferred datacenter + every token-owning node of it down, one still enabled, a remote node connected"""
-    f = ln.split(" ")
+    f = _norm(ln)
     if len(f) < 7:
         return None
     pref = f[5].split("/")[0]
@@ -34,7 +73,7 @@ def _down_dc(ln):
     owners = {e.rsplit(".", 1)[1] for e in f[2].split(",")} if f[2] != "-" else set()
     loc, rem = [], []
     for nd, fl in zip(f[1].split(","), f[4]):
-        i, dc, _ = nd.split(".")
+        i, dc, _ = nd.split(".")[:3]
         if i in owners:
             (loc if dc == d else rem).append(fl)
     if loc and "c" not in loc and "e" in loc and "c" in rem:
@@ -43,10 +82,17 @@ def _down_dc(ln):
 
 def _post(lines, verdicts):
     out = []
+    for b in _census():
+        out.append(("diff", lines[0], "diff census: " + b))
     if len(lines) >= 20000:
+        nl, dup = _two_reads(lines)
+        if nl < len(lines) // 20:
+            out.append(("diff", lines[0], f"diff generator floor: two-read (L) cases={nl} < {len(lines) // 20}"))
+        if dup < 5:
+            out.append(("diff", lines[0], f"diff generator floor: two-read plans naming a node twice={dup} < 5"))
         fo = sum(1 for ln in lines if _down_dc(ln) is True)
         nofo = sum(1 for ln in lines if _down_dc(ln) is False)
-        inh = sum(1 for ln in lines if ln.split(" ")[5].startswith("i/"))
+        inh = sum(1 for ln in lines if _norm(ln)[5].startswith("i/"))
         for k, v, floor in (("preferred-dc-down+failover", fo, len(lines) // 400), ("preferred-dc-down,no-failover", nofo, len(lines) // 400),
                             ("inherited-preference", inh, len(lines) // 20)):
             if v < floor:
@@ -66,10 +112,10 @@ SPEC = {
              "absent datacenters) x per-node flags {enabled+connected, enabled only, disabled} (6 assignment styles; ALL assignments for clusters of <= 3 nodes, <= 4 in the thorough tier; a directed stream with every node of the preferred datacenter down) x "
              "DefaultPolicy {inherit / no / DC / DC+rack preference incl. absent DC and rack, token-aware on/off, failover "
              "on/off, shuffling on/off} x request {token at a ring boundary or none, known / unknown keyspace / no table, "
-             "non-LWT / confirmed LWT / Serial / LocalSerial consistency, request-level preference}. One line = pick() once, "
-             "fallback() once and Plan::new(..) run to exhaustion 3 times. non-trivial = cluster has at least one enabled "
+             "non-LWT / confirmed LWT / Serial / LocalSerial consistency, request-level preference}. Kind P: one line = pick() once, "
+             "fallback() once and Plan::new(..) run to exhaustion 3 times. Kind L (1 in 5 cases, when pick() yields a target): one Plan whose first target is taken under one liveness assignment and the rest after some nodes changed state. non-trivial = cluster has at least one enabled "
              "node; distinct = distinct case lines"),
-    "nontrivial": lambda ln: len(ln.split(" ")) > 6 and ("c" in ln.split(" ")[4] or "e" in ln.split(" ")[4]),
+    "nontrivial": lambda ln: len(_norm(ln)) > 6 and ("c" in _norm(ln)[4] or "e" in _norm(ln)[4]),
     "trusted_base": [
         "group_of / lwt_sequence / the P_* predicates of Model/Plan.v are the plan order of the property text written over the C04 replica sets",
         "hook scylla::cluster::verif_node_flags (per-host is_enabled / is_connected override) on the pool-less nodes of the real ClusterState::new (scylla::cluster::verif_state::cluster_state_via_new, reject-all host filter); the policy is built by DefaultPolicyBuilder::build(); without a sharder every shard is 0",
